@@ -150,11 +150,12 @@ func negotiator(f func(*Session, *StreamConfig) StreamConfig) Negotiator {
 				}
 
 				switch {
-				case s.state&S2S == 0 && origin.Equal(jid.JID{}):
-					// If we're a server receiving a c2s connection and "from" wasn't
-					// previously set, just set it as the new origin JID since we've probably
-					// just negotiated TLS and the client is comfortable telling us who it is
-					// claiming to be now.
+				case origin.Equal(jid.JID{}):
+					// If we're a server receiving a connection and "from" wasn't
+					// previously set, just set it as the new origin JID: a client has
+					// probably just negotiated TLS and is comfortable telling us who it
+					// is claiming to be now, and a server always has to tell us (RFC 6120
+					// §4.7.1) so the first stream header is where we learn it.
 				case !origin.Equal(s.in.Info.From):
 					return mask, nil, nState, fmt.Errorf("xmpp: stream origin %s does not match previously set origin %s", s.in.Info.From, origin)
 				}
